@@ -203,6 +203,101 @@ def certify(d, w, s, cons, x, tol_abs=F(1, 10 ** 4), tol_rel=F(1, 10 ** 6), feas
     return "suboptimal", (float(cost), None if best is None else float(best))
 
 
+def certify_flow(d, w, s, cons, x, tol_abs=F(1, 10 ** 4), tol_rel=F(1, 10 ** 6), feas=F(1, 10 ** 6)):
+    """Weak-duality certificate with multipliers found by max-flow.
+
+    Stationarity  2 w_i (x_i - d_i) / s_i = inflow_i - outflow_i  of the multiplier
+    'flow' along tight constraints (edge left -> right) is a feasible-flow problem;
+    a max-flow gives lambda >= 0, and g(lambda) (exact) is a valid lower bound for
+    ANY lambda >= 0.  Complete up to float noise: at an optimum the KKT multipliers
+    are such a flow.  Returns (verdict, info) like certify()."""
+    n = len(d)
+    xq = [F(v) for v in x]
+    for (l, r, g) in cons:
+        lhs = s[r] * xq[r] - s[l] * xq[l]
+        if lhs - g < -feas * max(1, abs(g), abs(lhs)):
+            return "infeasible", (l, r, float(g), float(lhs))
+    cost = sum(w[i] * (xq[i] - d[i]) ** 2 for i in range(n))
+    T = [j for j, (l, r, g) in enumerate(cons)
+         if s[r] * xq[r] - s[l] * xq[l] - g <= feas * max(1, abs(g))]
+    b = [2 * w[i] * (xq[i] - d[i]) / s[i] for i in range(n)]
+    S, Z = n, n + 1
+    cap = {}
+    adj = [[] for _ in range(n + 2)]
+
+    def add(u, v, c):
+        if (u, v) not in cap:
+            cap[(u, v)] = F(0)
+            cap.setdefault((v, u), F(0))
+            adj[u].append(v)
+            adj[v].append(u)
+        cap[(u, v)] += c
+    big = sum(abs(v) for v in b) + 1
+    edge_of = {}
+    for j in T:
+        l, r, g = cons[j]
+        if l == r:
+            continue
+        add(l, r, big)
+        edge_of.setdefault((l, r), j)
+    heavy = [i for i in range(n) if w[i] >= 10 ** 6]
+
+    def terminal(i, extra=F(0)):
+        if b[i] > 0:
+            add(i, Z, b[i] if not extra else extra)
+        elif b[i] < 0:
+            add(S, i, -b[i] if not extra else extra)
+
+    def augment():
+        while True:
+            prev = {S: None}
+            q = [S]
+            for u in q:
+                if u == Z:
+                    break
+                for v in adj[u]:
+                    if v not in prev and cap[(u, v)] > 0:
+                        prev[v] = u
+                        q.append(v)
+            if Z not in prev:
+                return
+            f, v = None, Z
+            while prev[v] is not None:
+                c = cap[(prev[v], v)]
+                f = c if f is None or c < f else f
+                v = prev[v]
+            v = Z
+            while prev[v] is not None:
+                cap[(prev[v], v)] -= f
+                cap[(v, prev[v])] += f
+                used[(prev[v], v)] = used.get((prev[v], v), F(0)) + f
+                used[(v, prev[v])] = used.get((v, prev[v]), F(0)) - f
+                v = prev[v]
+    used = {}
+    # light variables first, then heavy ones at their measured residual, and only
+    # then the float-noise allowance of the heavy residuals (2*w*(x-d) with w=1e10
+    # amplifies the last bits of x), so the allowance never starves a light variable
+    for i in range(n):
+        if i not in heavy:
+            terminal(i)
+    augment()
+    for i in heavy:
+        terminal(i)
+    augment()
+    for i in heavy:
+        terminal(i, F(1, 1000) * (1 + abs(b[i])))
+    augment()
+    lam = [F(0)] * len(cons)
+    for (l, r), j in edge_of.items():
+        fl = used.get((l, r), F(0))  # net flow l->r (negative: carried by the antiparallel edge)
+        if fl > 0:
+            lam[j] = fl
+    gb = dual_bound(d, w, s, cons, lam)
+    if cost - gb <= tol_abs + tol_rel * abs(cost):
+        return "ok", float(cost - gb)
+    return "suboptimal", (float(cost), float(gb))
+
+
 def chain_opt_cost(d, w, gaps):
     """Exact optimum of a pure chain x_{i+1}-x_i >= gaps[i] with weights (PAVA)."""
     G = [F(0)]
@@ -230,7 +325,8 @@ def selftest():
                         print("selftest: PAVA != QP", d, gs, w)
                         return False
                     v, info = certify(dq, wq, sq, cons, [float(v) for v in x2])
-                    if v != "ok":
+                    v2, info2 = certify_flow(dq, wq, sq, cons, [float(v) for v in x2])
+                    if v != "ok" or v2 != "ok":
                         print("selftest: certificate rejects the exact optimum", d, gs, w, v, info)
                         return False
                     if c2 > 0:
@@ -240,7 +336,8 @@ def selftest():
                         # moving the last variable right keeps feasibility; cost changes
                         xb = [F(b) for b in bad]
                         cb = sum(wq[i] * (xb[i] - dq[i]) ** 2 for i in range(n))
-                        if cb > c2 + F(1, 1000) and v == "ok":
+                        v2, _ = certify_flow(dq, wq, sq, cons, bad)
+                        if cb > c2 + F(1, 1000) and (v == "ok" or v2 == "ok"):
                             print("selftest: certificate accepts a suboptimal point", d, gs, w)
                             return False
                     n_cases += 1
